@@ -245,11 +245,7 @@ func ruleMergerLoopExit(r *Report, rule string) {
 		detail := "loop exit inside the closeCh case"
 		if !inCloseCase {
 			var errClosed, notUser bool
-			var anchor ast.Node = bs
-			if prev := prevSibling(fi.Decl.Body, bs); prev != nil {
-				anchor = prev // go/cfg does not record branch statements as nodes
-			}
-			facts := g.GuardsOf(anchor)
+			facts := g.GuardsAtStmt(fi.Decl.Body, bs) // go/cfg does not record branch statements as nodes
 			for _, f := range facts {
 				s := exprStr(f.Expr)
 				if f.Truth && strings.Contains(s, "ErrClosed") && strings.Contains(s, "==") {
@@ -323,9 +319,20 @@ func ruleParallelSlotsUpdatedTogether(r *Report, rule, pkg, typeName, lead strin
 					if a2 != as && g.ReachesNode(as, a2) && (a2.Pos() > as.Pos() || g.ReachesFwdNode(as, a2)) {
 						// and nothing but error/nil early exits in between: the follower's guards = lead's guards + nil/err tests
 						extra := false
-						lf := factsString(g.GuardsOf(as))
+						leadFacts := g.GuardsOf(as)
+						lf := factsString(leadFacts)
 						for _, f := range g.GuardsOf(a2) {
 							if strings.Contains(lf, f.String()) {
+								continue
+							}
+							// the exit condition of the lead's own loop (the follower sits in a second loop)
+							isExit := false
+							for _, l := range leadFacts {
+								if l.Tag == nil && f.Tag == nil && l.Truth != f.Truth && exprStr(l.Expr) == exprStr(f.Expr) {
+									isExit = true
+								}
+							}
+							if isExit {
 								continue
 							}
 							if _, _, isNil := nilTest(info, f.Expr); !isNil {
@@ -2544,32 +2551,34 @@ func ruleFirstCallFlagSiblings(r *Report, rule, pkg, typeName string) {
 	info := next.Pkg.TypesInfo
 	recv := recvObj(next)
 	var flag *types.Var
-	ast.Inspect(next.Decl.Body, func(x ast.Node) bool {
-		is, ok := x.(*ast.IfStmt)
-		if !ok || is.Else == nil {
-			return true
-		}
-		e, isEq, isNil := nilTest(info, is.Cond)
-		if !isNil || isEq {
-			return true
-		}
-		sel, ok := ast.Unparen(e).(*ast.SelectorExpr)
-		if !ok || objOf(info, sel.X) != recv {
-			return true
-		}
-		fv, _ := info.ObjectOf(sel.Sel).(*types.Var)
-		// else branch assigns the same field
-		if eb, ok := is.Else.(*ast.BlockStmt); ok && fv != nil {
-			for _, st := range eb.List {
-				if as, ok := st.(*ast.AssignStmt); ok && len(as.Lhs) == 1 {
-					if s2, ok := ast.Unparen(as.Lhs[0]).(*ast.SelectorExpr); ok && info.ObjectOf(s2.Sel) == fv {
-						flag = fv
-					}
+	{
+		// a receiver field that Next() sets exactly where it finds it nil (whatever the branch order)
+		ng := buildCFG(info, next.Decl.Body)
+		ast.Inspect(next.Decl.Body, func(x ast.Node) bool {
+			as, ok := x.(*ast.AssignStmt)
+			if !ok || len(as.Lhs) != 1 {
+				return true
+			}
+			s2, ok := ast.Unparen(as.Lhs[0]).(*ast.SelectorExpr)
+			if !ok || objOf(info, s2.X) != recv {
+				return true
+			}
+			fv, _ := info.ObjectOf(s2.Sel).(*types.Var)
+			if fv == nil {
+				return true
+			}
+			for _, fc := range ng.GuardsOf(as) {
+				e, isEq, isNil := nilTest(info, fc.Expr)
+				if fc.Tag != nil || !isNil || isEq != fc.Truth {
+					continue
+				}
+				if sel, ok := ast.Unparen(e).(*ast.SelectorExpr); ok && objOf(info, sel.X) == recv && info.ObjectOf(sel.Sel) == types.Object(fv) {
+					flag = fv
 				}
 			}
-		}
-		return true
-	})
+			return true
+		})
+	}
 	if flag == nil {
 		undecidedf("%s.Next: first-call flag idiom not found", typeName)
 	}
@@ -5982,7 +5991,6 @@ func ruleOptionalFieldEqualityKeepsAbsence(r *Report, rule string, pkgRel string
 	}
 }
 
-
 // declaredWithin: the defining identifier of o is a node of the subtree (by
 // structure, not by source position: expanded helper bodies keep their own positions).
 func declaredWithin(info *types.Info, root ast.Node, o types.Object) bool {
@@ -5995,7 +6003,6 @@ func declaredWithin(info *types.Info, root ast.Node, o types.Object) bool {
 	})
 	return found
 }
-
 
 // isSigVar: o is a receiver, parameter or named result of fi.
 func isSigVar(fi *FuncInfo, o types.Object) bool {
